@@ -25,16 +25,23 @@ ZodVsPlainOk(e) == ZodMatchesPlain(ShapeOfZod(e.zod), ShapeOfTs(e.ts))
 
 \* the rendering of T[N] under the mapping denotes what the tool's rendering of T[M] denotes
 GotSubst(e) == IF e.lang = "ts" THEN ShapeOfTs(e.pts) ELSE ShapeOfZod(e.pzod)
+\* generic TypeScript names a rendering may mention without declaring them
+TsBuiltinNames == {"Record", "Array", "Map", "Set", "Partial", "Promise", "Channel", "z"}
 MappedOk(e) ==
     /\ Got(e) = GotSubst(e)
     /\ AsSet(e.declared) \cap MappedNames(e.rust) = {}
     /\ AsSet(e.referenced) \cap MappedNames(e.rust) = {}
+    \* "rendered as M": the targets are builtin types, so whatever name the rendering still refers to is a declared
+    \* project type (a target qualified as if it were a project type, `types.string`, is not M)
+    /\ AsSet(e.referenced) \subseteq AsSet(e.declared) \cup TsBuiltinNames
 
 \* coarse signature of what was observed instead (for known-finding matching)
 GotKind(e) ==
     IF e.event = "ZodVsPlain" THEN ShapeOfZod(e.zod).k
     ELSE IF e.event \in {"SameDecl", "DeclNames", "Keys"} THEN "differs"
-    ELSE IF e.event = "Mapped" THEN (IF Got(e) = GotSubst(e) THEN "same" ELSE Got(e).k)
+    ELSE IF e.event = "Mapped" THEN (IF Got(e) # GotSubst(e) THEN Got(e).k
+                                     ELSE IF ~(AsSet(e.referenced) \subseteq AsSet(e.declared) \cup TsBuiltinNames) THEN "undeclared-ref"
+                                     ELSE "same")
     ELSE LET g == Got(e) w == Shape(e.rust) IN
          IF g.k = "other" THEN g.why ELSE IF g.k = w.k THEN "deep" ELSE g.k
 
